@@ -3,6 +3,7 @@
 package harness
 
 import (
+	"encoding/binary"
 	"crypto/sha256"
 	"encoding/hex"
 	"fmt"
@@ -255,6 +256,18 @@ func (w *World) Logf(format string, a ...any) uint64 {
 
 //go:norace
 func (w *World) Stamp() uint64 { w.Seq++; return w.Seq }
+
+// schedNote mixes a scheduling decision into the log hash without consuming a sequence number.
+//
+//go:norace
+func (w *World) schedNote(kind byte, a, b int) {
+	var buf [17 + 32]byte
+	copy(buf[:32], w.logHash[:])
+	buf[32] = kind
+	binary.LittleEndian.PutUint64(buf[33:], uint64(a))
+	binary.LittleEndian.PutUint64(buf[41:], uint64(b))
+	w.logHash = sha256.Sum256(buf[:])
+}
 
 //go:norace
 func (w *World) LogHash() string { return hex.EncodeToString(w.logHash[:]) }
@@ -547,13 +560,19 @@ func (w *World) step(draw bool) bool {
 			}
 		}
 	}
+	// scheduling decisions go into the hash in compact form in every mode (sequence numbers
+	// and hash must not depend on whether the readable log is kept)
 	if cur != nil && pick != cur {
 		w.Preempts++
+		w.schedNote('p', cur.ID, pick.ID)
 		if w.KeepLog {
-			w.Logf("preempt %s at %s -> run %s (%s)", cur, cur.OpString(), pick, pick.OpString())
+			w.Log = append(w.Log, fmt.Sprintf("  preempt %s at %s -> run %s (%s)", cur, cur.OpString(), pick, pick.OpString()))
 		}
-	} else if w.KeepLog && pick != w.S.Current {
-		w.Logf("run %s (%s)", pick, pick.OpString())
+	} else if pick != w.S.Current {
+		w.schedNote('r', 0, pick.ID)
+		if w.KeepLog {
+			w.Log = append(w.Log, fmt.Sprintf("  run %s (%s)", pick, pick.OpString()))
+		}
 	}
 	if pick.Steps == 0 && pick.OpSeq == 0 {
 		pick.OpSeq = w.Seq + 1
